@@ -5,7 +5,8 @@ package pccm
 // world is never written (the block overlay is never flushed), so one empty store and one block
 // overlay are reused: the overlay is Reset (complete, re-seeded) and genesis initConfig is executed
 // again exactly as world.New does. Every case still starts from a byte-identical genesis state
-// and a zero transaction nonce, i.e. run stays a pure function of the case.
+// and a zero transaction nonce, i.e. run stays a pure function of the case. Cases that flush blocks
+// into the store (World.PersistBlocks / Persist) are cleaned up on release.
 
 import (
 	"sync"
@@ -57,6 +58,20 @@ func newWorld(n int) (*world.World, func()) {
 	}
 	w.Height = 1
 	return w, func() {
+		// a case that persisted blocks (world.Persist) wrote into the shared store: empty it again
+		st.NewBatch()
+		n := 0
+		it := st.NewIterator(nil)
+		for it.Next() {
+			st.BatchDelete(append([]byte(nil), it.Key()...))
+			n++
+		}
+		it.Release()
+		if n > 0 {
+			if err := st.BatchCommit(); err != nil {
+				panic(err)
+			}
+		}
 		poolMu.Lock()
 		poolBusy = false
 		poolMu.Unlock()
